@@ -33,6 +33,7 @@ type Prog struct {
 	flows     map[ast.Node]*Flow
 	cg        *CallGraph
 	ssa       *ssaView
+	RenameNotes []string
 }
 
 // Func is one declared function of the repository.
@@ -91,6 +92,20 @@ func Load(root string) (*Prog, error) {
 		return nil, fmt.Errorf("only %d packages loaded, expected at least %d", len(p.All), MinPackages)
 	}
 	sort.Slice(p.All, func(i, j int) bool { return p.All[i].PkgPath < p.All[j].PkgPath })
+	// rename tolerance (anchors.go): must be settled before any key is computed
+	current := map[string]*types.Func{}
+	for _, pkg := range p.All {
+		for _, f := range pkg.Syntax {
+			for _, d := range f.Decls {
+				if fd, ok := d.(*ast.FuncDecl); ok {
+					if obj, _ := pkg.TypesInfo.Defs[fd.Name].(*types.Func); obj != nil {
+						current[FuncKey(obj)] = obj
+					}
+				}
+			}
+		}
+	}
+	p.RenameNotes = p.resolveRenames(current)
 	for _, pkg := range p.All {
 		for _, f := range pkg.Syntax {
 			for _, d := range f.Decls {
@@ -159,9 +174,16 @@ func FuncKey(obj *types.Func) string {
 			// interface method declared in an anonymous interface
 			name = "iface"
 		}
-		return pkg + "." + name + "." + obj.Name()
+		return aliasKey(pkg + "." + name + "." + obj.Name())
 	}
-	return pkg + "." + obj.Name()
+	return aliasKey(pkg + "." + obj.Name())
+}
+
+func aliasKey(k string) string {
+	if a, ok := keyAlias[k]; ok {
+		return a
+	}
+	return k
 }
 
 // Pos renders a position relative to the repository root.
